@@ -19,6 +19,6 @@ for cid in sys.argv[1:]:
             meta = {"property": cid, "summary": "?", "needs": "?"}
         meta["property"] = cid
         meta["origin"] = "fresh sub-agent given only the property text and a scratch worktree" + (
-            " (round 2: asked for changes that need a fault, an interleaving or a multi-session history)" if OFFSET else "")
+            " (%s)" % os.environ["ROUND_NOTE"] if os.environ.get("ROUND_NOTE") else "")
         json.dump(meta, open(os.path.join(d, "meta.json"), "w"), indent=1)
         print("imported", d)
